@@ -336,6 +336,16 @@ class KillWalker:
             hops += 1
         if src.refs & containers:
             return True
+        # another arm-keyed dictionary of the same object: all arm_to_* dictionaries of a policy have exactly the
+        # current arms as keys (C08 R8.1 decides that), so walking one of them visits every key of the others
+        for r in src.refs:
+            so = eng.heap.objs.get(r) or eng.persistent.get(r)
+            if so is None or so.cls != "dict" or so.owner is None or so.keys is None or "label" not in so.keys.tags:
+                continue
+            fld = so.owner[1]
+            if isinstance(fld, str) and fld.startswith(".arm_to_") and so.owner[0] == t.oid and \
+                    t.field is not None and t.field.startswith("arm_to_"):
+                return True
         return False
 
     def note_guard_reads(self, ev, K):
